@@ -14,6 +14,11 @@ func runC20(c *Ctx) {
 	if c.Thorough() {
 		n = 4000
 	}
+	c20ShapeSweep(c, fK256, 6, 1)
+	if c.Thorough() {
+		c20ShapeSweep(c, fEd25519, 8, 2)
+		c20ShapeSweep(c, fBLS, 6, 3)
+	}
 	c20Field(c, fK256, n, 1)
 	c20Field(c, fEd25519, n/2, 2)
 	c20Field(c, fBLS, n/2, 3)
@@ -76,6 +81,343 @@ func genRows[S algebra.PrimeFieldElement[S]](r *Rng, f algebra.PrimeField[S], m,
 	return rows
 }
 
+// c20Shape counts the shape class of a system (evidence: how often each class was exercised).
+func c20Shape(c *Ctx, op string, m, n int, res string) {
+	class := "square"
+	if m > n {
+		class = "overdetermined"
+	} else if m < n {
+		class = "underdetermined"
+	}
+	out := "ok"
+	if res == "none" {
+		out = "none"
+	} else if len(res) < 3 || res[:3] != "ok:" {
+		out = "other"
+	}
+	c.Count(op + "." + class + "." + out)
+}
+
+// c20EmitSolveRight: one SolveRight line (b in the column span iff inSpan, then "none" is a violation
+// by the Go-side oracle alone).
+func c20EmitSolveRight[S algebra.PrimeFieldElement[S]](c *Ctx, r *Rng, f algebra.PrimeField[S], p string, rows [][]S, inSpan bool) {
+	m, n := len(rows), len(rows[0])
+	mod, err := mat.NewMatrixModule(uint(m), uint(n), f)
+	if err != nil {
+		c.Violation(fmt.Sprintf("NewMatrixModule(%d,%d): %v", m, n, err))
+		return
+	}
+	M, err := mod.New(rows)
+	if err != nil {
+		c.Violation(fmt.Sprintf("MatrixModule.New: %v", err))
+		return
+	}
+	b := make([]S, m)
+	if inSpan {
+		x := make([]S, n)
+		for j := range x {
+			x[j] = smallOrRandom(r, f, 50)
+		}
+		for i := range m {
+			acc := f.Zero()
+			for j := range n {
+				acc = acc.Add(rows[i][j].Mul(x[j]))
+			}
+			b[i] = acc
+		}
+	} else {
+		for i := range b {
+			b[i] = smallOrRandom(r, f, 80)
+		}
+	}
+	colMod, _ := mat.NewMatrixModule(uint(m), 1, f)
+	B, err := colMod.NewRowMajor(b...)
+	if err != nil {
+		c.Violation(fmt.Sprintf("NewRowMajor: %v", err))
+		return
+	}
+	res := safely(func() string {
+		x, err := mat.SolveRight(M, B)
+		if err != nil {
+			c.Count("solveRight.none")
+			return "none"
+		}
+		c.Count("solveRight.ok")
+		xs := make([]S, n)
+		for j := range n {
+			xs[j], _ = x.Get(j, 0)
+		}
+		return "ok:" + scalarsHex(xs)
+	})
+	c20Shape(c, "solveRight", m, n, res)
+	if inSpan && res == "none" {
+		c.Violation(fmt.Sprintf("SolveRight reported no solution for b=A*x p=%s %dx%d M=%s b=%s", p, m, n, matHex(rows), scalarsHex(b)))
+	}
+	c.Emit(fmt.Sprintf("solveRight %s %d %d %s %s", p, m, n, matHex(rows), scalarsHex(b)), res)
+}
+
+func c20EmitSolveLeft[S algebra.PrimeFieldElement[S]](c *Ctx, r *Rng, f algebra.PrimeField[S], p string, rows [][]S, inSpan bool) {
+	m, n := len(rows), len(rows[0])
+	mod, err := mat.NewMatrixModule(uint(m), uint(n), f)
+	if err != nil {
+		c.Violation(fmt.Sprintf("NewMatrixModule(%d,%d): %v", m, n, err))
+		return
+	}
+	M, err := mod.New(rows)
+	if err != nil {
+		c.Violation(fmt.Sprintf("MatrixModule.New: %v", err))
+		return
+	}
+	b := make([]S, n)
+	if inSpan {
+		x := make([]S, m)
+		for i := range x {
+			x[i] = smallOrRandom(r, f, 50)
+		}
+		for j := range n {
+			acc := f.Zero()
+			for i := range m {
+				acc = acc.Add(x[i].Mul(rows[i][j]))
+			}
+			b[j] = acc
+		}
+	} else {
+		for j := range b {
+			b[j] = smallOrRandom(r, f, 80)
+		}
+	}
+	rowMod, _ := mat.NewMatrixModule(1, uint(n), f)
+	B, err := rowMod.NewRowMajor(b...)
+	if err != nil {
+		c.Violation(fmt.Sprintf("NewRowMajor: %v", err))
+		return
+	}
+	res := safely(func() string {
+		x, err := mat.SolveLeft(M, B)
+		if err != nil {
+			c.Count("solveLeft.none")
+			return "none"
+		}
+		c.Count("solveLeft.ok")
+		xs := make([]S, m)
+		for i := range m {
+			xs[i], _ = x.Get(i, 0)
+		}
+		return "ok:" + scalarsHex(xs)
+	})
+	// x·M = r is the n×m system Mᵀ xᵀ = rᵀ
+	c20Shape(c, "solveLeft", n, m, res)
+	if inSpan && res == "none" {
+		c.Violation(fmt.Sprintf("SolveLeft reported no solution for b=x*A p=%s %dx%d M=%s b=%s", p, m, n, matHex(rows), scalarsHex(b)))
+	}
+	c.Emit(fmt.Sprintf("solveLeft %s %d %d %s %s", p, m, n, matHex(rows), scalarsHex(b)), res)
+}
+
+// c20EmitDetInv: Determinant and TryInv of the leading k×k part, k = min(m, n).
+func c20EmitDetInv[S algebra.PrimeFieldElement[S]](c *Ctx, f algebra.PrimeField[S], p string, rows [][]S) {
+	k := min(len(rows), len(rows[0]))
+	sq := make([][]S, k)
+	for i := range sq {
+		sq[i] = rows[i][:k]
+	}
+	alg, err := mat.NewMatrixAlgebra(uint(k), f)
+	if err != nil {
+		c.Violation(fmt.Sprintf("NewMatrixAlgebra: %v", err))
+		return
+	}
+	A, err := alg.New(sq)
+	if err != nil {
+		c.Violation(fmt.Sprintf("MatrixAlgebra.New: %v", err))
+		return
+	}
+	det := safely(func() string { return scalarHex(A.Determinant()) })
+	if det == "0" {
+		c.Count("det.zero")
+	} else {
+		c.Count("det.nonzero")
+	}
+	c.Emit(fmt.Sprintf("det %s %d %s", p, k, matHex(sq)), det)
+	inv := safely(func() string {
+		ai, err := A.TryInv()
+		if err != nil {
+			return "none"
+		}
+		out := make([]S, 0, k*k)
+		for i := range k {
+			for j := range k {
+				e, _ := ai.Get(i, j)
+				out = append(out, e)
+			}
+		}
+		if !A.Mul(ai).IsIdentity() || !ai.Mul(A).IsIdentity() {
+			c.Violation(fmt.Sprintf("TryInv: A*inv(A) != I or inv(A)*A != I p=%s n=%d M=%s", p, k, matHex(sq)))
+		}
+		return "ok:" + scalarsHex(out)
+	})
+	// the two code paths must agree: Determinant = 0 iff TryInv refuses (no model needed)
+	if (det == "0") != (inv == "none") {
+		c.Violation(fmt.Sprintf("Determinant and TryInv disagree on singularity p=%s n=%d M=%s det=%s inv=%s", p, k, matHex(sq), det, inv))
+	}
+	c.Emit(fmt.Sprintf("inv %s %d %s", p, k, matHex(sq)), inv)
+}
+
+func c20EmitMul[S algebra.PrimeFieldElement[S]](c *Ctx, r *Rng, f algebra.PrimeField[S], p string, rows [][]S, k int) {
+	m, n := len(rows), len(rows[0])
+	mod, _ := mat.NewMatrixModule(uint(m), uint(n), f)
+	M, err := mod.New(rows)
+	if err != nil {
+		c.Violation(fmt.Sprintf("MatrixModule.New: %v", err))
+		return
+	}
+	rows2 := genRows(r, f, n, k)
+	mod2, _ := mat.NewMatrixModule(uint(n), uint(k), f)
+	B, err := mod2.New(rows2)
+	if err != nil {
+		c.Violation(fmt.Sprintf("MatrixModule.New: %v", err))
+		return
+	}
+	res := safely(func() string {
+		pr, err := M.TryMul(B)
+		if err != nil {
+			return "err"
+		}
+		out := make([]S, 0, m*k)
+		for i := range m {
+			for j := range k {
+				e, _ := pr.Get(i, j)
+				out = append(out, e)
+			}
+		}
+		return scalarsHex(out)
+	})
+	c.Count("mul")
+	c.Emit(fmt.Sprintf("mul %s %d %d %d %s %s", p, m, n, k, matHex(rows), matHex(rows2)), res)
+}
+
+// c20EmitMismatch: dimension mismatches are refused (result class only; outside the property's domain).
+func c20EmitMismatch[S algebra.PrimeFieldElement[S]](c *Ctx, r *Rng, f algebra.PrimeField[S], p string, rows [][]S) {
+	m, n := len(rows), len(rows[0])
+	mod, _ := mat.NewMatrixModule(uint(m), uint(n), f)
+	M, err := mod.New(rows)
+	if err != nil {
+		c.Violation(fmt.Sprintf("MatrixModule.New: %v", err))
+		return
+	}
+	class := func(err error) string {
+		if err == nil {
+			return "ok"
+		}
+		return c20ErrClass(err)
+	}
+	// SolveRight with a column of the wrong length / a non-column; SolveLeft likewise
+	lb := m + 1 + r.IntN(2)
+	if r.IntN(2) == 0 && m > 1 {
+		lb = m - 1
+	}
+	cm, _ := mat.NewMatrixModule(uint(lb), 1, f)
+	B, _ := cm.NewRowMajor(c20Coeffs(r, f, lb)...)
+	c.Count("mismatch")
+	c.Emit(fmt.Sprintf("solveRightDim %s %d %d %d 1", p, m, n, lb), safely(func() string { _, err := mat.SolveRight(M, B); return class(err) }))
+	rm, _ := mat.NewMatrixModule(1, uint(m+1), f)
+	B2, _ := rm.NewRowMajor(c20Coeffs(r, f, m+1)...)
+	c.Emit(fmt.Sprintf("solveRightDim %s %d %d 1 %d", p, m, n, m+1), safely(func() string { _, err := mat.SolveRight(M, B2); return class(err) }))
+	lr := n + 1
+	rm2, _ := mat.NewMatrixModule(1, uint(lr), f)
+	R, _ := rm2.NewRowMajor(c20Coeffs(r, f, lr)...)
+	c.Emit(fmt.Sprintf("solveLeftDim %s %d %d 1 %d", p, m, n, lr), safely(func() string { _, err := mat.SolveLeft(M, R); return class(err) }))
+	cm2, _ := mat.NewMatrixModule(uint(n+1), 1, f)
+	R2, _ := cm2.NewRowMajor(c20Coeffs(r, f, n+1)...)
+	c.Emit(fmt.Sprintf("solveLeftDim %s %d %d %d 1", p, m, n, n+1), safely(func() string { _, err := mat.SolveLeft(M, R2); return class(err) }))
+	// TryMul with inner dimensions that do not match
+	k2 := n + 1
+	mod2, _ := mat.NewMatrixModule(uint(k2), 2, f)
+	B3, _ := mod2.NewRowMajor(c20Coeffs(r, f, k2*2)...)
+	c.Emit(fmt.Sprintf("mulDim %s %d %d %d 2", p, m, n, k2), safely(func() string { _, err := M.TryMul(B3); return class(err) }))
+}
+
+// c20ShapeSweep: every shape m×n with 0 <= m, n <= maxDim exactly once per structure kind, so that no
+// shape (0-dimensional, 1×1, single row/column, square, over-/under-determined) depends on the random
+// draw: 0-dimensional modules/algebras must be refused by the constructors; for every other shape a
+// generic matrix, a rank-deficient one (a row that is a multiple of another and/or a zero column) and a
+// permutation-structured one go through SolveRight (consistent and arbitrary right-hand side),
+// SolveLeft, Determinant/TryInv of the leading square part, TryMul and the dimension-mismatch refusals.
+func c20ShapeSweep[S algebra.PrimeFieldElement[S]](c *Ctx, f algebra.PrimeField[S], maxDim int, stream uint64) {
+	r := NewRng(c.Seed, 2300+stream)
+	p := hexNat(fieldOrder(f))
+	for m := 0; m <= maxDim; m++ {
+		for n := 0; n <= maxDim; n++ {
+			if m == 0 || n == 0 {
+				c.Note("TRIVIAL")
+				c.Count("shape.zero-dim")
+				c.Emit(fmt.Sprintf("newModule %s %d %d", p, m, n), safely(func() string {
+					_, err := mat.NewMatrixModule(uint(m), uint(n), f)
+					if err != nil {
+						return c20ErrClass(err)
+					}
+					return "ok"
+				}))
+				if m == n {
+					c.Note("TRIVIAL")
+					c.Emit(fmt.Sprintf("newAlgebra %s %d", p, m), safely(func() string {
+						_, err := mat.NewMatrixAlgebra(uint(m), f)
+						if err != nil {
+							return c20ErrClass(err)
+						}
+						return "ok"
+					}))
+				}
+				continue
+			}
+			for kind := 0; kind < 3; kind++ {
+				rows := make([][]S, m)
+				for i := range rows {
+					rows[i] = make([]S, n)
+					for j := range rows[i] {
+						rows[i][j] = smallOrRandom(r, f, []int{60, 90, 100}[kind])
+					}
+				}
+				switch kind {
+				case 1: // rank-deficient: dependent row and/or zero column
+					if m >= 2 {
+						i := r.IntN(m)
+						k := (i + 1 + r.IntN(m-1)) % m
+						a := smallOrRandom(r, f, 60)
+						for j := range n {
+							rows[i][j] = rows[k][j].Mul(a)
+						}
+					}
+					if n >= 2 && (m < 2 || r.IntN(2) == 0) {
+						j := r.IntN(n)
+						for i := range m {
+							rows[i][j] = f.Zero()
+						}
+					}
+				case 2: // permuted (partial) diagonal
+					k := min(m, n)
+					perm := r.Perm(k)
+					for i := range rows {
+						for j := range rows[i] {
+							rows[i][j] = f.Zero()
+						}
+					}
+					for i := 0; i < k; i++ {
+						rows[i][perm[i]] = f.FromUint64(uint64(1 + r.IntN(3)))
+					}
+				}
+				c.Count(fmt.Sprintf("shape.kind%d", kind))
+				c20EmitSolveRight(c, r, f, p, rows, true)
+				c20EmitSolveRight(c, r, f, p, rows, false)
+				c20EmitSolveLeft(c, r, f, p, rows, r.IntN(2) == 0)
+				c20EmitDetInv(c, f, p, rows)
+				if kind == 0 {
+					c20EmitMul(c, r, f, p, rows, 1+r.IntN(3))
+					c20EmitMismatch(c, r, f, p, rows)
+				}
+			}
+		}
+	}
+}
+
 func c20Field[S algebra.PrimeFieldElement[S]](c *Ctx, f algebra.PrimeField[S], count int, stream uint64) {
 	r := NewRng(c.Seed, 2000+stream)
 	p := hexNat(fieldOrder(f))
@@ -85,170 +427,15 @@ func c20Field[S algebra.PrimeFieldElement[S]](c *Ctx, f algebra.PrimeField[S], c
 			m, n = 1+r.IntN(12), 1+r.IntN(12)
 		}
 		rows := genRows(r, f, m, n)
-		mod, err := mat.NewMatrixModule(uint(m), uint(n), f)
-		if err != nil {
-			c.Violation(fmt.Sprintf("NewMatrixModule(%d,%d): %v", m, n, err))
-			continue
-		}
-		M, err := mod.New(rows)
-		if err != nil {
-			c.Violation(fmt.Sprintf("MatrixModule.New: %v", err))
-			continue
-		}
 		switch r.IntN(5) {
 		case 0, 1: // SolveRight: b either in the column span (x chosen) or arbitrary
-			b := make([]S, m)
-			inSpan := r.IntN(2) == 0
-			if inSpan {
-				x := make([]S, n)
-				for j := range x {
-					x[j] = smallOrRandom(r, f, 50)
-				}
-				for i := range m {
-					acc := f.Zero()
-					for j := range n {
-						acc = acc.Add(rows[i][j].Mul(x[j]))
-					}
-					b[i] = acc
-				}
-			} else {
-				for i := range b {
-					b[i] = smallOrRandom(r, f, 80)
-				}
-			}
-			colMod, _ := mat.NewMatrixModule(uint(m), 1, f)
-			B, err := colMod.NewRowMajor(b...)
-			if err != nil {
-				c.Violation(fmt.Sprintf("NewRowMajor: %v", err))
-				continue
-			}
-			res := safely(func() string {
-				x, err := mat.SolveRight(M, B)
-				if err != nil {
-					c.Count("solveRight.none")
-					return "none"
-				}
-				c.Count("solveRight.ok")
-				xs := make([]S, n)
-				for j := range n {
-					xs[j], _ = x.Get(j, 0)
-				}
-				return "ok:" + scalarsHex(xs)
-			})
-			if inSpan && res == "none" {
-				c.Violation(fmt.Sprintf("SolveRight reported no solution for b=A*x p=%s %dx%d M=%s b=%s", p, m, n, matHex(rows), scalarsHex(b)))
-			}
-			c.Emit(fmt.Sprintf("solveRight %s %d %d %s %s", p, m, n, matHex(rows), scalarsHex(b)), res)
-		case 2: // SolveLeft
-			b := make([]S, n)
-			inSpan := r.IntN(2) == 0
-			if inSpan {
-				x := make([]S, m)
-				for i := range x {
-					x[i] = smallOrRandom(r, f, 50)
-				}
-				for j := range n {
-					acc := f.Zero()
-					for i := range m {
-						acc = acc.Add(x[i].Mul(rows[i][j]))
-					}
-					b[j] = acc
-				}
-			} else {
-				for j := range b {
-					b[j] = smallOrRandom(r, f, 80)
-				}
-			}
-			rowMod, _ := mat.NewMatrixModule(1, uint(n), f)
-			B, err := rowMod.NewRowMajor(b...)
-			if err != nil {
-				c.Violation(fmt.Sprintf("NewRowMajor: %v", err))
-				continue
-			}
-			res := safely(func() string {
-				x, err := mat.SolveLeft(M, B)
-				if err != nil {
-					c.Count("solveLeft.none")
-					return "none"
-				}
-				c.Count("solveLeft.ok")
-				xs := make([]S, m)
-				for i := range m {
-					xs[i], _ = x.Get(i, 0)
-				}
-				return "ok:" + scalarsHex(xs)
-			})
-			if inSpan && res == "none" {
-				c.Violation(fmt.Sprintf("SolveLeft reported no solution for b=x*A p=%s %dx%d M=%s b=%s", p, m, n, matHex(rows), scalarsHex(b)))
-			}
-			c.Emit(fmt.Sprintf("solveLeft %s %d %d %s %s", p, m, n, matHex(rows), scalarsHex(b)), res)
+			c20EmitSolveRight(c, r, f, p, rows, r.IntN(2) == 0)
+		case 2:
+			c20EmitSolveLeft(c, r, f, p, rows, r.IntN(2) == 0)
 		case 3: // Determinant and inverse of the square part
-			k := min(m, n)
-			sq := make([][]S, k)
-			for i := range sq {
-				sq[i] = rows[i][:k]
-			}
-			alg, err := mat.NewMatrixAlgebra(uint(k), f)
-			if err != nil {
-				c.Violation(fmt.Sprintf("NewMatrixAlgebra: %v", err))
-				continue
-			}
-			A, err := alg.New(sq)
-			if err != nil {
-				c.Violation(fmt.Sprintf("MatrixAlgebra.New: %v", err))
-				continue
-			}
-			det := safely(func() string { return scalarHex(A.Determinant()) })
-			if det == "0" {
-				c.Count("det.zero")
-			} else {
-				c.Count("det.nonzero")
-			}
-			c.Emit(fmt.Sprintf("det %s %d %s", p, k, matHex(sq)), det)
-			inv := safely(func() string {
-				ai, err := A.TryInv()
-				if err != nil {
-					return "none"
-				}
-				out := make([]S, 0, k*k)
-				for i := range k {
-					for j := range k {
-						e, _ := ai.Get(i, j)
-						out = append(out, e)
-					}
-				}
-				if !A.Mul(ai).IsIdentity() {
-					c.Violation(fmt.Sprintf("TryInv: A*inv(A) != I p=%s n=%d M=%s", p, k, matHex(sq)))
-				}
-				return "ok:" + scalarsHex(out)
-			})
-			c.Emit(fmt.Sprintf("inv %s %d %s", p, k, matHex(sq)), inv)
+			c20EmitDetInv(c, f, p, rows)
 		case 4: // TryMul
-			k := 1 + r.IntN(5)
-			rows2 := genRows(r, f, n, k)
-			mod2, _ := mat.NewMatrixModule(uint(n), uint(k), f)
-			B, err := mod2.New(rows2)
-			if err != nil {
-				c.Violation(fmt.Sprintf("MatrixModule.New: %v", err))
-				continue
-			}
-			res := safely(func() string {
-				pr, err := M.TryMul(B)
-				if err != nil {
-					return "err"
-				}
-				out := make([]S, 0, m*k)
-				for i := range m {
-					for j := range k {
-						e, _ := pr.Get(i, j)
-						out = append(out, e)
-					}
-				}
-				return scalarsHex(out)
-			})
-			c.Count("mul")
-			c.Emit(fmt.Sprintf("mul %s %d %d %d %s %s", p, m, n, k, matHex(rows), matHex(rows2)), res)
+			c20EmitMul(c, r, f, p, rows, 1+r.IntN(5))
 		}
 	}
 }
-
